@@ -3782,10 +3782,18 @@ class ScoreVariant(object):
         return clone
 
     def create_variant_part(self):
-        part = Part(self.part.id, part_name=self.part.part_name)
+        part = Part(
+            self.part.id,
+            part_name=self.part.part_name,
+            part_abbreviation=self.part.part_abbreviation,
+        )
 
         for start, end, offset in self.segments:
             delta = offset - start.t
+            # the divisions in force at the start of the segment may have been set before it
+            part.set_quarter_duration(
+                offset, int(self.part.quarter_duration_map(start.t))
+            )
             qd = self.part.quarter_durations(start.t, end.t)
             for t, quarter in qd:
                 part.set_quarter_duration(t + delta, quarter)
